@@ -364,11 +364,17 @@ def main(tier: str) -> int:
             lv = TL.ref_levels(nested)
             if any((a == 0) != (l == ml) for a, l in zip(ar, lv)):
                 chk.fail("the full method produced a tree whose leaves are not all at max_level", d, {"fn": "init", "clause": "full"})
-    for s in range(20):
+    for s in range(24):
         numba_seed(chk.seed + 12000 + s)
-        pop = GeneticProgramming.half_and_half(8, us, 5)
-        if len(pop) != 8 or any((not well_formed(t)) or depth_of(flat_names(t)[1]) > 5 for t in pop):
-            chk.fail("half_and_half produced a malformed or too deep tree", {"seed": chk.seed + 12000 + s}, {"fn": "init", "clause": "half_and_half"})
+        mlh = (5, 1, 2, 3, 6, 1)[s % 6]          # every limit from the smallest one on
+        psz = (8, 12, 7)[s % 3]
+        pop = GeneticProgramming.half_and_half(psz, us, mlh)
+        chk.count("half_and_half_level_%d" % mlh)
+        if len(pop) != psz or any((not well_formed(t)) or depth_of(flat_names(t)[1]) > mlh for t in pop):
+            badt = next((t for t in pop if (not well_formed(t)) or depth_of(flat_names(t)[1]) > mlh), None)
+            chk.fail("half_and_half produced a malformed or too deep tree", {"seed": chk.seed + 12000 + s, "max_level": mlh, "pop_size": psz,
+                                                                              "tree": None if badt is None else sstr(badt)}, {"fn": "init", "clause": "half_and_half"})
+            break
 
     # ------------------------------------------------------------------ the pool tables of live instances: each name is bound to
     # the operator it names (identity of the function object, parameter, constant-rate flag)
